@@ -104,6 +104,7 @@ type input struct {
 	Large   *largeSpec      `json:"large,omitempty"`   // large: how to rebuild the (megabytes of) metadata
 	Pad     int             `json:"pad,omitempty"`     // padded: Text + Pad blanks + Junk is the file
 	Junk    string          `json:"junk,omitempty"`
+	History []valInput      `json:"history,omitempty"` // history: documents validated one after the other in one process
 	Target  string          `json:"target,omitempty"` // validate: which entry point
 	Val     *valInput       `json:"val,omitempty"`
 }
@@ -475,6 +476,17 @@ func sample(r *lib.Rng, cs []corruption, n int) []corruption {
 	if n >= len(cs) {
 		return cs
 	}
+	// the null / absent / wrongly typed forms of every required member of the wrapper are always part of the run
+	var out []corruption
+	var rest []corruption
+	for _, c := range cs {
+		if c.Klass == "drop@wrapper" || c.Klass == "null@wrapper" || c.Klass == "retype@wrapper" {
+			out = append(out, c)
+		} else {
+			rest = append(rest, c)
+		}
+	}
+	cs = rest
 	by := map[string][]corruption{}
 	var keys []string
 	for _, c := range cs {
@@ -489,7 +501,6 @@ func sample(r *lib.Rng, cs []corruption, n int) []corruption {
 		r.Shuffle(len(l), func(i, j int) { l[i], l[j] = l[j], l[i] })
 	}
 	r.Shuffle(len(keys), func(i, j int) { keys[i], keys[j] = keys[j], keys[i] })
-	var out []corruption
 	for len(out) < n {
 		progress := false
 		for _, k := range keys {
@@ -674,6 +685,8 @@ func main() {
 			fmt.Printf("followed by %d blanks and %q\n", in.Pad, in.Junk)
 			fmt.Println("impl LoadMetadata:   " + lm)
 			fmt.Println("impl Metablock.Load: " + ml)
+		case "history":
+			fmt.Println("impl (verdicts in order, one process): " + runHistory(in.History))
 		case "reload":
 			fmt.Println("first file:  " + in.Text)
 			fmt.Println("second file: " + in.Text2)
